@@ -101,7 +101,8 @@ def case_frame(seed, out, spec, wd):
             snapcheck.check_frames(snap, stack, probs, app_rule=lambda f: _rule2(rule, f))
             stats['frames'] += len(stack)
             reached = snapcheck.check_frame_vars(snap, stack, frame_type or 'single_frame',
-                                                 {'max_str': 1024, 'max_coll': 10}, probs, strict_children=2,
+                                                 {'max_str': snapcheck.default_limits()['max_str'], 'max_coll': None},
+                                                 probs, strict_children=2,
                                                  content_for=case.rig.is_host)
             stats['entries'] += len(reached)
             snapcheck.check_closed(snap, probs)
@@ -212,7 +213,7 @@ def compare_watch(snap, w, val, failed, local_ids, probs):
         probs.add('scope:host-globals-invisible', 'watch %r is %s in the frame (locals + module globals) but the '
                                                   'agent got %s' % (w.expression, short(val, 60), ent.value[:100]))
         return
-    p = snapcheck.value_problem(val, ent, 1024)
+    p = snapcheck.value_problem(val, ent, snapcheck.default_limits()['max_str'])
     if p:
         probs.add('watch:value', 'watch %r: %s' % (w.expression, p))
     if id(val) in local_ids and ent.hash != str(id(val)):
@@ -365,7 +366,7 @@ class _ProtoExpect:
                 elif ln is not None:
                     if str(ln) not in ent.value:
                         probs.add('fidelity:value', 'received %s: container of %d rendered %r' % (v.name, ln, ent.value))
-                elif sval is not None and ent.value != sval[:1024]:
+                elif sval is not None and ent.value != sval[:snapcheck.default_limits()['max_str']]:
                     probs.add('fidelity:value', 'received %s: value %r, real %r' % (v.name, ent.value[:60], sval[:60]))
         if msg.tracepoint.ID != 'tp-e2e' or msg.tracepoint.path != 'e2e_target.py':
             probs.add('naming:tracepoint-id', 'received tracepoint %s %s' % (msg.tracepoint.ID, msg.tracepoint.path))
